@@ -256,6 +256,22 @@ def apalache_inductive(module, init, inv, nxt, cinit, timeout=900):
                 tool="apalache 0.58.0 (symbolic, inductive invariant)")
 
 
+def _kill_by_path(path):
+    """kills every process whose command line mentions path (provers started for a scratch directory)"""
+    for pid in os.listdir("/proc"):
+        if not pid.isdigit() or int(pid) == os.getpid():
+            continue
+        try:
+            cmd = open("/proc/%s/cmdline" % pid, "rb").read().decode("utf-8", "replace")
+        except OSError:
+            continue
+        if path in cmd:
+            try:
+                os.kill(int(pid), 9)
+            except OSError:
+                pass
+
+
 def tlaps(module, expect_min=10, timeout=900):
     """TLAPS: every proof obligation of the module must be discharged. A failure is a defect of the
     specification or of the proof (exit 2), never a code violation."""
@@ -268,12 +284,19 @@ def tlaps(module, expect_min=10, timeout=900):
         m, out = None, ""
         for stretch in ("3", "12"):       # back-end time limits are wall clock: a loaded machine gets a second, slower try
             shutil.rmtree(os.path.join(wd, ".tlacache"), ignore_errors=True)
+            # own process group, killed afterwards: back-end provers (z3, zenon, isabelle) must not outlive the run
+            pr = subprocess.Popen(["tlapm", "--threads", "8", "--stretch", stretch, module + ".tla"], cwd=wd, stdout=subprocess.PIPE,
+                                  stderr=subprocess.STDOUT, text=True, start_new_session=True)
             try:
-                p = subprocess.run(["tlapm", "--threads", "8", "--stretch", stretch, module + ".tla"], cwd=wd, capture_output=True,
-                                   text=True, timeout=timeout)
+                out, _ = pr.communicate(timeout=timeout)
             except subprocess.TimeoutExpired:
                 raise Machinery("tlapm %s timed out" % module)
-            out = p.stdout + p.stderr
+            finally:
+                try:
+                    os.killpg(pr.pid, 9)
+                except OSError:
+                    pass
+                _kill_by_path(wd)
             m = re.search(r"All (\d+) obligations? proved", out)
             if m and int(m.group(1)) >= expect_min:
                 break
